@@ -168,6 +168,17 @@ func genC20(t *rapid.T) c20Case {
 	g := gensrc.New(t, d.L(), d.R(), d.CL(), d.CR())
 	g.Strays = true
 	c := c20Case{Delims: d, Src: g.Program()}
+	if rapid.IntRange(0, 3).Draw(t, "dropTokens") == 0 {
+		// a typo: one or two tokens are missing. Most such sources do not parse (then there is nothing to walk);
+		// whatever does parse is a template like any other
+		toks := tokRe.FindAllString(c.Src, -1)
+		for k := rapid.IntRange(1, 2).Draw(t, "ndropped"); k > 0 && len(toks) > 1; k-- {
+			i := rapid.IntRange(0, len(toks)-1).Draw(t, "dropped")
+			toks = append(toks[:i], toks[i+1:]...)
+		}
+		c.Src = strings.Join(toks, "")
+		g.Kinds["token-dropped"]++
+	}
 	switch rapid.IntRange(0, 39).Draw(t, "longChain") {
 	case 0:
 		// one operand per tree level: hundreds of levels
